@@ -28,6 +28,8 @@ func init() {
 			{Name: "propose-short-check", File: "pkg/cluster/propose/codec.go", Old: "\t\tif len(data) < 13 {", New: "\t\tif len(data) < 12 {", Expect: "C27/R2*DecodeForwardRequest*"},
 			{Name: "command-allows-unknown-fields", File: "pkg/controller/command/codec.go", Old: "\tdecoder.DisallowUnknownFields()\n", New: "", Expect: "C27/R3*"},
 			{Name: "command-ignores-version", File: "pkg/controller/command/codec.go", Old: "\tif env.Version != commandEnvelopeVersion {\n\t\treturn Command{}, fmt.Errorf(\"%w: %d\", ErrUnsupportedVersion, env.Version)\n\t}\n", New: "", Expect: "C27/R3*"},
+			{Name: "uvarint-accepts-overflow", File: "pkg/channel/replication/codec.go", Old: "value, size := binary.Uvarint(c.data[c.offset:])\n\tif size <= 0 {", New: "value, size := binary.Uvarint(c.data[c.offset:])\n\tif size == 0 {", Expect: "C27/R2-varint*"},
+			{Name: "meta-v6-boundary", File: "pkg/cluster/channels/codec.go", Old: "\tif version < legacyCodecVersionV6 {\n\t\treturn meta, offset, nil", New: "\tif version <= legacyCodecVersionV6 {\n\t\treturn meta, offset, nil", Expect: "C27/R1-channels/channels.Meta*"},
 			{Name: "channels-ack-swap", File: "pkg/cluster/channels/codec.go", Old: "\tdst = appendUvarint(dst, req.MatchOffset)\n\tdst = appendUvarint(dst, req.ActivityVersion)\n\tdst = appendBool(dst, req.Stopped)", New: "\tdst = appendUvarint(dst, req.ActivityVersion)\n\tdst = appendUvarint(dst, req.MatchOffset)\n\tdst = appendBool(dst, req.Stopped)", Expect: "C27/R1*AckRequest*"},
 		},
 	})
@@ -120,10 +122,11 @@ func c27(c *Ctx) {
 		{"RPCApplicationError", "appendRPCApplicationError", "readRPCApplicationError"},
 		{"ConversationHeadsRequest", "appendConversationHeadsRequest", "readConversationHeadsRequest"},
 		{"CommittedReadsRequest", "appendCommittedReadsRequest", "readCommittedReadsRequest"},
+		{"Meta", "appendMeta", "readMeta"},
 	} {
 		c.SeqPair("R1-channels", channelsCodec, "channels."+p[0], cp+p[1], cp+p[2])
 	}
-	for _, n := range []string{"PullResponse", "PullBatchResponse", "AppendRequest", "AppendResult", "AppendBatchRequest", "AppendBatchResult", "LastVisibleRequest", "LastVisibleResponse", "ConversationHeadsResponse", "CommittedReadsResponse", "Message", "Meta", "Record"} {
+	for _, n := range []string{"PullResponse", "PullBatchResponse", "AppendRequest", "AppendResult", "AppendBatchRequest", "AppendBatchResult", "LastVisibleRequest", "LastVisibleResponse", "ConversationHeadsResponse", "CommittedReadsResponse", "Message", "Record"} {
 		uncovered = append(uncovered, n)
 	}
 	c.add("wire", "R1-channels", "channels#uncovered-kinds", Exception, "", fmt.Sprintf("NOT compared (version-dispatched decoders with per-version remainder readers; the sequence extractor cannot pair them soundly): %v — only R2 (decode safety) applies to them", uncovered))
@@ -144,6 +147,11 @@ func c27(c *Ctx) {
 
 	// the bounded-count helpers that DecodeSafe trusts for make() sizes really bound their result
 	c.Guard("R2-countbound", c.Fn(rp+"exchangeCursor.count"), Ret{Idx: 1, Glob: "true"}, "* <= maximum", "*uvarint(*)#1 == true")
+	// the cursor primitives report success only when binary.(U)varint consumed a positive number of bytes
+	// (0 = truncated, <0 = overflow); DecodeSafe and the count rules trust their ok result
+	c.Guard("R2-varint", c.Fn(rp+"exchangeCursor.uvarint"), Ret{Idx: 1, Glob: "true"}, "encoding/binary.Uvarint(*)#1 > 0")
+	c.Guard("R2-varint", c.Fn(rp+"exchangeCursor.varint"), Ret{Idx: 1, Glob: "true"}, "encoding/binary.Varint(*)#1 > 0")
+	c.Min("R2-varint", 2)
 	c.Guard("R2-countbound", c.Fn(rp+"exchangeCursor.sliceCount"), RetNot{Idx: 0, Globs: []string{"0"}}, "* <= maximum")
 	c.Guard("R2-countbound", c.Fn(cp+"readCollectionLen"), RetNil{}, "count <= remaining")
 	c.Guard("R2-countbound", c.Fn(cp+"readSliceHeader"), RetNot{Idx: 1, Globs: []string{"0"}}, "*.readCollectionLen(*)#1 == nil")
